@@ -443,6 +443,7 @@ func vC08RunRtmpRead(c vSx, starts *[]int) (obs vSx, fails []vC08Fail, nontrivia
 	for _, e := range cends {
 		ends = append(ends, base+e)
 	}
+	vC08LastWire = len(wire)
 	ks, kok := vC08Ks(c.l[7], len(wire))
 	if !kok {
 		return bad, nil, false, -1
@@ -694,6 +695,7 @@ func vC08RunRtmpWrite(c vSx) (obs vSx, fails []vC08Fail, nontrivial bool, failK 
 	if len(wire) < base || !bytes.Equal(wire[base:], cw) {
 		fail(-1, "c08-fault-free-wire", fmt.Sprintf("fault-free chunk stream (%d bytes) differs from the reference chunker's (%d bytes)", len(wire)-base, len(cw)))
 	}
+	vC08LastWire = len(wire)
 	is, iok := vC08Ks(c.l[6], len(calls))
 	if !iok {
 		return bad, nil, false, -1
@@ -867,16 +869,42 @@ func vC08GenSegs(r *vRng) vSx {
 }
 
 
-// number of offsets a sweep over a wire of wl bytes may use: the cost of one run is ~ wl
-// (implementation and model re-read the delivered prefix), so a sweep is given a byte budget
-func vC08Budget(k *vKit, wl int, scale int) int {
-	b := 200000
+// Cost control.  One run (one cut offset / fault index) costs about wl byte-steps in the
+// implementation and in the model, which re-read the delivered prefix.  Every case gets at most
+// vC08CaseCap byte-steps, and the whole entry at most vC08EntryCap; once that is spent the
+// remaining cases are generated with the minimum number of offsets.
+var vC08Spent int
+var vC08LastWire int // wire length of the case just run
+
+func vC08CaseCap(k *vKit) int {
 	if k.thorough() {
-		b = 1500000
+		return 1500000
+	}
+	return 200000
+}
+
+func vC08EntryCap(k *vKit) int {
+	if k.thorough() {
+		return 120000000
+	}
+	return 20000000
+}
+
+// number of offsets a sweep over a wire of wl bytes may use
+func vC08Budget(k *vKit, wl int, scale int) int {
+	b := vC08CaseCap(k)
+	if vC08Spent > vC08EntryCap(k) {
+		b = 0
 	}
 	n := b * scale / (wl + 1)
-	if n < 8 {
-		n = 8
+	if n < 6 {
+		n = 6
+	}
+	if n*(wl+1) > 2000000 && wl+1 < 2000000 {
+		n = 2000000 / (wl + 1) // never more than 2*10^6 byte-steps in one case
+		if n < 1 {
+			n = 1
+		}
 	}
 	return n
 }
@@ -926,6 +954,14 @@ func vC08Thin(k *vKit, set []vSx, lim int) []vSx {
 	return keep
 }
 
+// end offsets of the messages of a generated session (marks for a thinned sweep)
+func vC08MsgEnds(msgs []vSx) []int {
+	ms, _ := vC08ParseMsgs(vLs(msgs))
+	_, ends, _, _ := vC08RefChunks(ms, false)
+	out := append([]int{0}, ends...)
+	return append(out, vC08Marks...)
+}
+
 func vC08TermRead(r *vRng) int { return r.pickInt(0, 0, 0, 1, 2, 4, 5, 6, 7, 8, 9) }
 
 func TestVerifC08Rtmp(t *testing.T) {
@@ -952,6 +988,7 @@ func TestVerifC08Rtmp(t *testing.T) {
 		}
 		idx := k.record(c, obs, nt)
 		if obs.isList() && len(obs.l) > 1 {
+			vC08Spent += (len(obs.l) - 1) * (vC08LastWire + 1)
 			if write {
 				k.hist["rtmp"]["write-runs"] += len(obs.l) - 1
 			} else {
@@ -989,14 +1026,30 @@ func TestVerifC08Rtmp(t *testing.T) {
 	for i := 0; i < nSmall; i++ {
 		msgs, wl := vC08GenMsgs(k.rnd, true, false)
 		for j := 0; j < 3; j++ {
-			runOne(rdCase(0, msgs, vC08TermRead(k.rnd), k.rnd.intn(4), vC08GenSegs(k.rnd), vL(vZ(0), vZ(0), vI(wl))), false)
+			runOne(rdCase(0, msgs, vC08TermRead(k.rnd), k.rnd.intn(4), vC08GenSegs(k.rnd), vC08PickKs(k, wl, vC08MsgEnds(msgs), 1)), false)
 		}
 	}
-	// with the handshake: every offset (quick: one session)
-	nHs := k.N(1, 6)
+	// with the handshake: every offset, in ranges that each stay within the case cap
+	nHs := k.N(1, 4)
 	for i := 0; i < nHs; i++ {
 		msgs, wl := vC08GenMsgs(k.rnd, true, false)
-		runOne(rdCase(1, msgs, vC08TermRead(k.rnd), k.rnd.intn(4), vC08GenSegs(k.rnd), vL(vZ(0), vZ(0), vI(wl+vC08HsLen))), false)
+		total := wl + vC08HsLen
+		step := vC08CaseCap(k) / (total + 1)
+		if step < 1 {
+			step = 1
+		}
+		term, mode, segs := vC08TermRead(k.rnd), k.rnd.intn(4), vC08GenSegs(k.rnd)
+		for lo := 0; lo <= total; lo += step {
+			hi := lo + step - 1
+			if hi > total {
+				hi = total
+			}
+			interesting := lo < 40 || (hi >= 1500 && lo <= 1580) || hi >= 3040
+			if !k.thorough() && !interesting && k.rnd.intn(4) != 0 {
+				continue // quick: the plain middle of c1 / c2 is sampled
+			}
+			runOne(rdCase(1, msgs, term, mode, segs, vL(vZ(0), vI(lo), vI(hi))), false)
+		}
 	}
 	// larger sessions: every offset when the byte budget allows, else every chunk/item boundary +-2 and random offsets
 	nLarge := k.N(16, 80)
